@@ -69,6 +69,7 @@
 EXTENDS Naturals, Sequences, FiniteSets, TLC
 
 CONSTANTS Topics, MaxRef, QCap, Callers,
+          Parts,     \* which parts of the pipeline the environment exercises: subset of {"adv", "poll", "api", "boot"} (keeps the exhaustive runs small)
           DevStopIgnoresRelay, DevNoCancel, DevNoAdvGuard, DevNoDedup, DevNoOngoingDelete, DevPollIgnoresEnough,
           DevIgnoreBootstrapResult, DevUnbufferedDone, DevBareSend, DevRetryZero, SvcZeroTTL
 
@@ -178,7 +179,7 @@ Join(t) == LoopIdle /\ t \notin joined /\ joined' = joined \cup {t} /\ UNCHANGED
 \* handleRemoveTopic: refused while subscriptions or relays exist
 Close(t) == LoopIdle /\ t \in joined /\ ~Interest(t) /\ joined' = joined \ {t} /\ UNCHANGED RestJ
 
-EnvEnough(t) == /\ LoopIdle /\ enough' = [enough EXCEPT ![t] = ~@]
+EnvEnough(t) == /\ Parts \cap {"poll", "boot"} # {} /\ LoopIdle /\ enough' = [enough EXCEPT ![t] = ~@]
                 /\ UNCHANGED <<alive, subs, relays, joined, cur, orphans, zomb, loop, pollpc, discQ, ongoing, hd, dl, sig,
                                bpc, bt, bctx, sawReady, published, apiBlocked>>
 
@@ -188,7 +189,7 @@ NxtOf(o) == CASE o = "ok" -> 1 [] o = "errttl" -> 1 [] o = "zero" -> 0
               [] o = "err" -> IF DevRetryZero THEN 0 ELSE 2
 RestG == <<alive, subs, relays, joined, enough, orphans, zomb, loop, pollpc, discQ, ongoing, hd, dl, sig, bpc, bt, bctx,
            sawReady, published, apiBlocked>>
-AdvRet(t) == /\ cur[t].pc = "call"
+AdvRet(t) == /\ "adv" \in Parts /\ cur[t].pc = "call"
              /\ \E o \in Outcomes : cur' = [cur EXCEPT ![t] = [pc |-> "sleep", nxt |-> NxtOf(o)]]
              /\ UNCHANGED RestG
 AdvTimer(t) == /\ cur[t].pc = "sleep"
@@ -202,7 +203,7 @@ ZombExit(t) == /\ zomb[t] > 0 /\ zomb' = [zomb EXCEPT ![t] = @ - 1]
 (* -------- pollTimer and requestDiscovery *)
 RestP == <<alive, subs, relays, joined, enough, cur, orphans, zomb, ongoing, hd, dl, sig, bpc, bt, bctx, sawReady,
            published, apiBlocked>>
-PollFire == alive /\ pollpc = "wait" /\ pollpc' = "send" /\ UNCHANGED <<loop, discQ, RestP>>
+PollFire == "poll" \in Parts /\ alive /\ pollpc = "wait" /\ pollpc' = "send" /\ UNCHANGED <<loop, discQ, RestP>>
 Starved == {t \in joined : DevPollIgnoresEnough \/ ~enough[t]}
 PollSend == /\ LoopIdle /\ pollpc = "send" /\ pollpc' = "wait"
             /\ loop' = IF Starved = {} THEN Idle ELSE [st |-> "req", todo |-> Starved]
@@ -259,7 +260,7 @@ HDSig(t, i) == /\ i \in DOMAIN hd[t] /\ hd[t][i].pc = "sig" /\ CanSignal(hd[t][i
 (* -------- Topic.Publish with WithReadiness: Bootstrap, then the hand-over to validation *)
 RestB == <<alive, subs, relays, joined, enough, cur, orphans, zomb, loop, pollpc, ongoing, hd, dl, apiBlocked>>
 Gone(c) == ~alive \/ ~bctx[c]
-BStart(c, t) == /\ alive /\ bpc[c] = "idle" /\ t \in joined
+BStart(c, t) == /\ "boot" \in Parts /\ alive /\ bpc[c] = "idle" /\ t \in joined
                 /\ bpc' = [bpc EXCEPT ![c] = "check"] /\ bt' = [bt EXCEPT ![c] = t]
                 /\ UNCHANGED <<discQ, sig, bctx, sawReady, published, RestB>>
 \* select { case d.p.eval <- func(){ ready }: ...  case <-ctx.Done / p.ctx.Done: return false }
@@ -299,7 +300,7 @@ EnvCancelCtx(c) == /\ bpc[c] \notin {"idle", "ret"} /\ bctx[c] /\ bctx' = [bctx 
 (* -------- discover.Discover (Topic.Subscribe / Topic.Relay call it before the event loop sees the request) *)
 RestApi == <<alive, subs, relays, joined, enough, cur, orphans, zomb, loop, pollpc, ongoing, hd, dl, sig, bpc, bt, bctx,
              sawReady, published>>
-ApiDiscover(t) == /\ t \in joined
+ApiDiscover(t) == /\ "api" \in Parts /\ t \in joined
                   /\ \/ Len(discQ) < QCap /\ discQ' = Append(discQ, Req(t, "api", None, TRUE)) /\ UNCHANGED apiBlocked
                      \/ Len(discQ) = QCap /\ (alive \/ DevBareSend) /\ Len(apiBlocked) < 1
                         /\ apiBlocked' = Append(apiBlocked, t) /\ UNCHANGED discQ
